@@ -378,6 +378,8 @@ class TermEval:
     def call(self, e: ast.Call, env, f):
         if e.keywords:
             raise AnalysisError("keyword arguments in a DSL expression: %s" % ast.unparse(e))
+        if isinstance(e.func, ast.Name) and e.func.id == "cast" and len(e.args) == 2 and "cast" not in env:
+            return self.eval(e.args[1], env, f)      # typing.cast(T, x) is x; T is not an expression of the DSL
         args = []
         for a in e.args:
             if isinstance(a, ast.Starred):
